@@ -61,6 +61,13 @@ def abstract_machine(rng, with_any=False):
         ids = [s["id"] for s in d["states"]]
         nonfinal = [s["id"] for s in d["states"] if not s["final"]]
         tgt = rng.choice(ids)
+        if rng.random() < 0.5:
+            # an explicit, GUARDED transition to the same target under the same event, declared before the any(): the state
+            # it leaves has both (the guarded one first) in every rendering
+            j = len(d["trans"]) + 1
+            d["trans"].append({"src": rng.choice(nonfinal), "tgt": tgt, "evs": ["anyev"], "internal": False})
+            d["cbs"].append({"okind": "T", "owner": "", "tix": j, "group": "cond", "prov": "sm", "coro": False, "yields": 0,
+                             "gname": rng.choice(gen.GNAMES), "expected": True, "ret": "none", "style": "name"})
         for s in nonfinal:
             d["trans"].append({"src": s, "tgt": tgt, "evs": ["anyev"], "internal": False, "from_any": True})
         # the same guards (cond and unless, by ONE name each) on all of them: from_.any(cond=..., unless=...)
@@ -110,6 +117,7 @@ def render(rng, d, style):
     by_attr = style in ("attr", "event_obj", "decorator")
     mixed = style in ("mixed", "inherit_attr")
     handles_of_event = {}
+    acc_of = {}
     k = 0
     while k < len(trans):
         t = trans[k]
@@ -160,7 +168,6 @@ def render(rng, d, style):
                 if e not in order:
                     order.append(e)
         # a transition's own event order must be a subsequence of the attribute order
-        acc_of = {}
         for e in order:
             hs = handles_of_event[e]
             acc = hs[0]
@@ -207,11 +214,17 @@ def render(rng, d, style):
                              "internal": False, "guards": list(t["guards"]), "evstyle": "string", "itself": False})
                 hs.append(h)
             if by_attr:
-                acc = hs[0]
-                for x in hs[1:]:
+                # (an explicit transition may carry the same event: its list comes first, the attribute is bound once)
+                acc = acc_of.get("anyev")
+                for x in (hs if acc is not None else hs[1:]):
+                    if acc is None:
+                        acc = hs[0]
                     nh = newh()
                     body.append({"op": "or", "h": nh, "a": acc, "b": x})
                     acc = nh
+                if acc is None:
+                    acc = hs[0]
+                body[:] = [st for st in body if not (st["op"] == "event" and st["name"] == "anyev")]
                 body.append({"op": "event", "name": "anyev", "h": acc, "style": "attr"})
     return body
 
